@@ -1,0 +1,13 @@
+//go:build verif
+
+package disk
+
+// Contracts for the govc verifier (/verif). Comment-only.
+
+// the informer has no lock: every field is immutable once SetClient has run (it happens before any other use)
+//@ guards Informer.(none):
+
+//@ func (disk *Informer) Shutdown
+//@   property C18
+//@   opts own
+//@   modifies heap(Informer)
